@@ -225,7 +225,7 @@ def ob_engine(name, make, tier, label, unit_heights=False, decimals=None):
 
         def rbody(v):
             g = lambda val: round(float(val) * GRID) / GRID       # the witness on the decimals grid
-            sp = regeng.spec_literal({k: val for k, val in spec.items() if k in ("name", "description", "inputs", "outputs", "blocks", "share_components")}, lit, lambda x: g(v[rev[id(x)]]))
+            sp = regeng.spec_literal({k: val for k, val in spec.items() if k in ("name", "description", "inputs", "outputs", "blocks", "share_components", "assign")}, lit, lambda x: g(v[rev[id(x)]]))
             wl = "{" + ", ".join(f"{k!r}: {lit(g(v[rev[id(w)]]) if id(w) in rev else w)}" for k, w in spec.get("weights", {}).items()) + "}"
             return "\n".join([regeng.PY_BUILD, PY_COMPARE, f"spec = {sp}", f"weights = {wl}", "import warnings; warnings.simplefilter('ignore')",
                               f"fl.settings.decimals = {decimals if decimals is not None else 3}",
@@ -249,7 +249,7 @@ def ob_engine(name, make, tier, label, unit_heights=False, decimals=None):
             S.tokens.clear()
             S.token_of.clear()
             with inst.shadow(fl.rule, float=sym_float_builtin), ctx():
-                e = build({k: val for k, val in spec.items() if k in ("name", "description", "inputs", "outputs", "blocks", "share_components")}, spec.get("weights"))
+                e = build({k: val for k, val in spec.items() if k in ("name", "description", "inputs", "outputs", "blocks", "share_components", "assign")}, spec.get("weights"))
                 if decimals is not None:
                     with fl.settings.context(decimals=3):
                         fl.FllExporter().to_string(e)      # an earlier export under other decimals leaves no trace
